@@ -244,6 +244,39 @@ func (w *Walk) block(b *ssa.BasicBlock, from int, env Env, raw map[*ssa.Phi]ssa.
 			w.Seq[in] = len(w.Seq)
 		}
 		w.Reached[in] = true
+		// the instruction computes its value anew (a loop came round): what an earlier round
+		// learnt about it no longer holds
+		if v, isVal := in.(ssa.Value); isVal {
+			switch in.(type) {
+			case *ssa.Phi, *ssa.Extract:
+				// phis are rebound on every edge; results of a followed call are bound before
+				// their extract runs and go stale with the call
+			default:
+				stale := func(k ssa.Value) bool {
+					if k == v {
+						return true
+					}
+					ex, isEx := k.(*ssa.Extract)
+					return isEx && ex.Tuple == v
+				}
+				has := false
+				for k := range env {
+					if stale(k) {
+						has = true
+						break
+					}
+				}
+				if has {
+					ne := make(Env, len(env))
+					for k, x := range env {
+						if !stale(k) {
+							ne[k] = x
+						}
+					}
+					env = ne
+				}
+			}
+		}
 		if w.Visit != nil {
 			if _, isPhi := in.(*ssa.Phi); !isPhi {
 				if !w.Visit(in, env) {
@@ -448,6 +481,9 @@ func (w *Walk) evalD(v ssa.Value, env Env, d int) Val {
 	case *ssa.Alloc, *ssa.MakeSlice, *ssa.MakeMap, *ssa.MakeChan, *ssa.MakeClosure, *ssa.Function, *ssa.FieldAddr, *ssa.IndexAddr:
 		return vNil(false)
 	case *ssa.BinOp:
+		if r, ok := env[x]; ok && r.Kind == 1 {
+			return r
+		}
 		a := w.evalD(x.X, env, d+1)
 		b := w.evalD(x.Y, env, d+1)
 		switch x.Op {
@@ -471,6 +507,28 @@ func (w *Walk) evalD(v ssa.Value, env Env, d int) Val {
 					return vBool(a.I > b.I)
 				case token.GEQ:
 					return vBool(a.I >= b.I)
+				}
+			}
+		case token.ADD, token.SUB, token.MUL, token.QUO, token.REM:
+			// integer arithmetic on known values (no overflow at the magnitudes the rules feed in).
+			// Only over constants and assumed parameters: a loop counter must stay unknown, or
+			// every turn of a loop would be a state of its own.
+			if a.Kind == 3 && b.Kind == 3 && phiFree(x, 0) {
+				switch x.Op {
+				case token.ADD:
+					return vInt(a.I + b.I)
+				case token.SUB:
+					return vInt(a.I - b.I)
+				case token.MUL:
+					return vInt(a.I * b.I)
+				case token.QUO:
+					if b.I != 0 {
+						return vInt(a.I / b.I)
+					}
+				case token.REM:
+					if b.I != 0 {
+						return vInt(a.I % b.I)
+					}
 				}
 			}
 		case token.AND, token.OR:
@@ -545,7 +603,7 @@ func guardedBy(call ssa.Instruction, rv ssa.Value, target ssa.Instruction) (bool
 	if call.Parent() != target.Parent() {
 		return false, "call and target are in different functions"
 	}
-	if !instrDominates(call, target) {
+	if !mustPass(call, target) {
 		return false, "the check does not dominate the target (a path reaches the target without the check)"
 	}
 	if rv == nil {
@@ -663,8 +721,8 @@ func (w *Walk) inProgress(key string) bool {
 // followed call's result, in its caller - is decided the same way.
 func (w *Walk) refine(cond ssa.Value, env Env) (Env, Env) {
 	bo, ok := cond.(*ssa.BinOp)
-	if !ok || (bo.Op != token.EQL && bo.Op != token.NEQ) {
-		return env, env
+	if !ok || (bo.Op != token.EQL && bo.Op != token.NEQ) || !(isNilConst(bo.Y) || isNilConst(bo.X)) {
+		return w.refineFlag(cond, env)
 	}
 	var x ssa.Value
 	switch {
@@ -690,6 +748,35 @@ func (w *Walk) refine(cond ssa.Value, env Env) (Env, Env) {
 		return mk(true), mk(false)
 	}
 	return mk(false), mk(true)
+}
+
+// refineFlag: a computed boolean that is used again besides this branch (merged into a flag by a
+// phi, negated, tested a second time) is remembered as true / false on the two sides, so that the
+// later use is decided. Conditions used only by their branch are not recorded: the fact could
+// never be consulted and would only split the memoised states.
+func (w *Walk) refineFlag(cond ssa.Value, env Env) (Env, Env) {
+	switch cond.(type) {
+	case *ssa.BinOp, *ssa.Call, *ssa.Extract, *ssa.UnOp:
+	default:
+		return env, env
+	}
+	if u, ok := cond.(*ssa.UnOp); ok && u.Op == token.NOT {
+		f, t := w.refineFlag(u.X, env)
+		return t, f
+	}
+	refs := cond.Referrers()
+	if refs == nil || len(*refs) < 2 {
+		return env, env
+	}
+	mk := func(b bool) Env {
+		e := make(Env, len(env)+1)
+		for k, v := range env {
+			e[k] = v
+		}
+		e[cond] = vBool(b)
+		return e
+	}
+	return mk(true), mk(false)
 }
 
 var privateCellCache = map[*ssa.Alloc]bool{}
@@ -724,4 +811,22 @@ func privateCell(al *ssa.Alloc) bool {
 	}
 	privateCellCache[al] = ok
 	return ok
+}
+
+// phiFree: the value is built from constants and parameters by conversions and arithmetic only.
+func phiFree(v ssa.Value, d int) bool {
+	if d > 8 {
+		return false
+	}
+	switch x := v.(type) {
+	case *ssa.Const, *ssa.Parameter:
+		return true
+	case *ssa.Convert:
+		return phiFree(x.X, d+1)
+	case *ssa.ChangeType:
+		return phiFree(x.X, d+1)
+	case *ssa.BinOp:
+		return phiFree(x.X, d+1) && phiFree(x.Y, d+1)
+	}
+	return false
 }
